@@ -35,6 +35,11 @@ CHECKS = {
    "The harness polls receive futures by hand and drops them at generated suspension points; the sequence of results must equal the reference decode of each frame. All subsets of <= 12 suspension points of 30 small streams and every k for byte-at-a-time delivery are enumerated.",
    "Trusted: the simulated read half is itself cancel safe; reference as in C01. Only cancellation of the connection's own receive futures is covered here (the server's use of them is exercised by C08-C10).",
    "§3 C07"),
+ "C05": ("exploration", "vcheck",
+   "exhaustive enumeration of call objects (10 method templates x 8 flag sets x explicit false x 0..2 unknown members x every member permutation) + proptest lanes for re-spelled texts (escapes in member names / values, white space), encodings through serde_json and through zlink's own serializer, derived error enums x member orders x {absent, null, {}}, Reply<T>, unit-output proxy methods; oracles: reference decode of the method type alone (differential), hand-written expected encodings, round trip, permutation invariance",
+   "Every permutation of every envelope in the grammar is decoded as Call<M> and compared with the decode of M from the same object without the flags (flags as written, hidden from M, other members passed through); encodings are compared with hand-written expectations via serde_json and via the send path; every value of 4 derived error enums and the standard service errors round-trips from every member order and, when field-less, from absent / null / {} parameters (also through receive_reply); unit-output proxy methods accept all three spellings.",
+   "Trusted: serde's derive for user-defined method types as the reference for what the method type accepts; hand-written expected encodings next to each generated value. Error-enum shapes are a compiled-in set of 4 enums (generated corpora of derives are exercised by C12/C16).",
+   "§3 C05"),
  "C08": ("exploration", "vcheck",
    "model-based property testing of server schedules (proptest, shrinking): deterministic simulation of Server::run (scripted listener / sockets / service, hand-rolled executor, one Poll = run to quiescence) with generated connection scripts and global event orders; exhaustive enumeration of all interleavings of chunk deliveries for 2 connections x 4 chunks and 3 connections x 2 chunks; oracle = per-connection sequential reference model + service-log monitor",
    "1..4 scripted clients with 0..5 calls each (plain / oneway / error-producing, pipelined or split at arbitrary bytes) are delivered in a generated global order; at every quiescent point each client's received frames must equal (at frame boundaries) or be a prefix of (mid-frame) the sequential model of its own calls, carry only its own tag, and the service log per connection must equal its calls exactly once in order; the server future must stay pending.",
